@@ -257,6 +257,42 @@ func Frame(tg Tags, begin string, body []byte) []byte {
 	return out
 }
 
+// Relength rewrites the BodyLength value of a message produced by Frame (and
+// recomputes the CheckSum), leaving everything else as it is: the declared length
+// is the only thing wrong with the result. Messages that do not start with the
+// two framing fields are returned unchanged.
+func Relength(b []byte, tg Tags, newLen string) []byte {
+	toks, err := Tokenize(b)
+	if err != nil || len(toks) < 3 || toks[0].Tag != tg.BeginString || toks[1].Tag != tg.BodyLength {
+		return b
+	}
+	head := len(tg.BeginString) + 1 + len(toks[0].Val) + 1
+	oldField := len(tg.BodyLength) + 1 + len(toks[1].Val) + 1
+	tail := len(tg.CheckSum) + 1 + 3 + 1
+	if head+oldField+tail > len(b) {
+		return b
+	}
+	var out []byte
+	out = append(out, b[:head]...)
+	out = append(out, tg.BodyLength...)
+	out = append(out, '=')
+	out = append(out, newLen...)
+	out = append(out, SOH)
+	out = append(out, b[head+oldField:len(b)-tail]...)
+	sum := 0
+	for _, c := range out {
+		sum += int(c)
+	}
+	out = append(out, tg.CheckSum...)
+	out = append(out, '=')
+	out = append(out, fmt.Sprintf("%03d", sum%256)...)
+	out = append(out, SOH)
+	return out
+}
+
+// ExtremeLengths are BodyLength texts far from any real length.
+var ExtremeLengths = []string{"0", "1", "99999", "-30", "2147483648", "99999999999999999999", "-9223372036854775808", "00000000000000000007"}
+
 // Split cuts a byte stream into messages: a message ends with the SOH that
 // terminates the first field whose tag is exactly csTag.
 func Split(stream []byte, csTag string) (msgs [][]byte, rest []byte) {
